@@ -1180,7 +1180,8 @@ class RefAssignParser(BaseAssignParser):
 
         if (isinstance(self.obj, Model)
                 or not isinstance(decoder, TupleDecoder)
-                or decoder.size() < 3):
+                or decoder.size() < 3
+                or not isinstance(decoder.elm(2), str)):    # Not a refmode
             setter = Instruction.from_method(
                 obj=self.obj,
                 method="__setattr__",
